@@ -11,6 +11,7 @@ CONSTANTS
   TracerStyles = {"none"}
   Threadeds = {FALSE}
   Givens = {}
+  Blockeds = {"none"}
   Flags = {"no_base_handler"}
 INVARIANT Restored
 INVARIANT Contained
